@@ -29,11 +29,13 @@ RULE = ('CSV files built by construction: 2-5 columns; (minibatch_size m, subsam
         'checkpoint clauses are not asserted: the code only checkpoints scoring heuristics), target-only or pairwise, annotated or plain names, '
         'interaction order 1 or 2 (constructed features named "a AND b"). '
         'Non-trivial = >=2 batches, or a tail decision within 2 of 1024, or >=1 malformed row on the subsampling grid.')
-ASSUMPTIONS = ['per-batch triplets of the model are obtained by applying the batch scorer (compute_batch_ranking) to each MODEL batch '
+ASSUMPTIONS = ['cell values are ASCII: csv-raw reads the header with the default encoding and the rows as latin1, so non-ASCII bytes are '
+               'an encoding question outside the statement',
+               'per-batch triplets of the model are obtained by applying the batch scorer (compute_batch_ranking) to each MODEL batch '
                '(scoring itself is C05, feature construction C10/C11)',
                'gzip input and multi-file globs are not generated (not in the statement)']
 
-VALUES = ['a', 'b', 'c', '', '1', '2', 'x,y', 'p q', '"q"', 'é']
+VALUES = ['a', 'b', 'p\x0cq', 'x,y', '', 'u\x0bv', '1', '"q"', 'm\x1cn', 'c', '2', 'p q', 'r\x1ds']   # ASCII only (the header is read as UTF-8, the rows as latin1); incl. FF, VT, FS, GS inside a field
 
 
 @st.composite
@@ -54,7 +56,7 @@ def case_strategy(draw):
     bad = [[draw(st.sampled_from(['few', 'many', 'empty', 'single'])),
             draw(st.sampled_from(['first', 'last', 'rand'])), draw(st.integers(0, 10**6))] for _ in range(nbad)]
     return {'ncols': ncols, 'm': m, 's': s, 'k': k, 't': t, 'bad': bad, 'seed': draw(st.integers(0, 2**32 - 1)),
-            'trail': draw(st.integers(0, 3)), 'offgrid_bad': draw(st.booleans()),
+            'trail': draw(st.integers(0, 3)), 'offgrid_bad': draw(st.booleans()), 'final_newline': draw(st.sampled_from([True, True, False])),
             'heuristic': draw(st.sampled_from(['MI-numba-randomized', 'MI-numba-randomized', 'max-value-coverage', 'Constant'])),
             'header_rows': draw(st.lists(st.integers(0, 10**6), max_size=2)) if draw(st.integers(0, 3)) == 0 else [],
             'pairwise': draw(st.booleans()), 'annot': draw(st.booleans()), 'label_pos': draw(st.integers(0, ncols - 1)),
@@ -182,6 +184,8 @@ def strip_annot(name, cols):
 
 def oracle(case, rec):
     cols, lines = build_lines(case)
+    if not case.get('final_newline', True) and lines and lines[-1] == '':
+        lines = lines[:-1]      # an empty last line without terminator is not a line of the file
     m, s, ncols = case['m'], case['s'], case['ncols']
     batches, invalid = batch_model(lines, m, s, ncols)
     V = case['k'] * m + case['t']
@@ -194,6 +198,8 @@ def oracle(case, rec):
         rec.cls('malformed-on-grid')
     if case.get('header_rows'):
         rec.cls('data-row-equal-to-header')
+    if not case.get('final_newline', True):
+        rec.cls('no-final-newline')
     rec.cls('h=' + case['heuristic'])
     tmp = tempfile.mkdtemp(prefix='c08-')
     old_cwd = os.getcwd()
@@ -204,8 +210,9 @@ def oracle(case, rec):
         os.makedirs('data')
         with open('data/data.csv', 'w', encoding='latin1', newline='') as fh:
             fh.write(','.join(cols) + '\n')
-            for ln in lines:
-                fh.write(ln + '\n')
+            for li, ln in enumerate(lines):
+                last = li == len(lines) - 1
+                fh.write(ln + ('' if last and not case.get('final_newline', True) else '\n'))
         args = stubs.make_args(heuristic=case['heuristic'], target_ranking_only='False' if case['pairwise'] else 'True',
                                minibatch_size=m, subsampling=s, data_path=os.path.join(tmp, 'data'), data_source='csv-raw',
                                output_folder=os.path.join(tmp, 'out'),
